@@ -358,8 +358,67 @@ def case_dask(ctx, index, rng: random.Random):
     rec.case(desc, chunks < n and n > 10, cls="dask")
 
 
+def case_from_arrays(ctx, index, rng: random.Random):
+    """Operands built directly from arrays of contents (the constructor keeps the arrays it is given): one array serving as
+    contents and as squared errors, or as the contents of both operands. Sums and += are still element-wise sums of what
+    the operands held, and the other operand stays what it was."""
+    import physt
+    from physt.histogram1d import Histogram1D
+    from physt.histogram_nd import Histogram2D
+
+    rec = ctx.rec
+    rec.mon("C05.add.post")
+    d = rng.choice([1, 1, 2])
+    shape = [rng.randint(1, 6) for _ in range(d)]
+    edges = [np.array(gen.edges(rng, n)) for n in shape]
+    dt = rng.choice([np.int64, np.float64, np.int32])
+    c1 = np.array([rng.randint(0, 9) for _ in range(int(np.prod(shape)))], dtype=dt).reshape(shape)
+    c2 = np.array([rng.randint(0, 9) for _ in range(int(np.prod(shape)))], dtype=dt).reshape(shape)
+    sharing = rng.choice(["errors_is_contents", "same_array_twice", "none"])
+    orig1, orig2 = c1.copy(), c2.copy()
+
+    def make(f, **kw):
+        return Histogram1D(edges[0].copy(), f, **kw) if d == 1 else Histogram2D([e.copy() for e in edges], f, **kw)
+
+    try:
+        with warnings.catch_warnings():
+            warnings.simplefilter("ignore")
+            if sharing == "errors_is_contents":
+                a, b = make(c1, errors2=c1), make(c2)
+            elif sharing == "same_array_twice":
+                a, b = make(c1), make(c1)
+                orig2 = orig1
+            else:
+                a, b = make(c1), make(c2)
+            how = rng.choice(["iadd", "add", "radd", "sum"])
+            if how == "iadd":
+                a += b
+                r = a
+            elif how == "add":
+                r = a + b
+            elif how == "radd":
+                r = b + a
+            else:
+                r = sum([a, b])
+    except Exception as e:
+        rec.fail(monitor="C05.add.post", op=f"from_arrays/{sharing}", symptom=f"adding histograms built from arrays raised {type(e).__name__}", diff=["raised"], detail={"error": str(e)[:200]})
+        return
+    with attach.quiet():
+        exp = orig1.astype(float) + orig2.astype(float)
+        if not (np.array_equal(np.asarray(r.frequencies, dtype=float), exp) and np.array_equal(np.asarray(r.errors2, dtype=float), exp)):
+            rec.fail(monitor="C05.add.post", op=f"{how}/{sharing}", symptom="contents / squared errors of a sum are not the element-wise sums of what the operands held", diff=["frequencies", "errors2"],
+                     detail={"got": np.asarray(r.frequencies).ravel()[:8], "got_errors2": np.asarray(r.errors2).ravel()[:8], "expected": exp.ravel()[:8]})
+        if not (np.array_equal(np.asarray(b.frequencies, dtype=float), orig2.astype(float)) and np.array_equal(np.asarray(b.errors2, dtype=float), orig2.astype(float))):
+            rec.fail(monitor="C05.add.post", op=f"{how}/{sharing}", symptom="the other operand was modified by an addition", diff=["operand"],
+                     detail={"got": np.asarray(b.frequencies).ravel()[:8], "expected": orig2.ravel()[:8]})
+        if how != "iadd" and not np.array_equal(np.asarray(a.frequencies, dtype=float), orig1.astype(float)):
+            rec.fail(monitor="C05.add.post", op=f"{how}/{sharing}", symptom="an operand was modified by a copying addition", diff=["operand"], detail={})
+    rec.case([shape, c1.ravel().tolist(), c2.ravel().tolist(), sharing, how], sharing != "none" and float(exp.sum()) > 0, cls=f"from_arrays/{sharing}/{how}")
+
+
 def run(ctx):
     attach_monitors()
+    ctx.run_cases(ctx.scale(60, 400), case_from_arrays, salt="arrays")
     ctx.run_cases(ctx.scale(300, 2500), case_static, salt="static")
     ctx.run_cases(ctx.scale(300, 2500), case_adaptive, salt="adaptive")
     ctx.run_cases(ctx.scale(80, 400), case_refusal, salt="refusal")
